@@ -518,7 +518,7 @@ func (e *enc) trCall(n *ECall, env *Env) Val {
 		case v.GT != nil:
 			if m, ok := v.GT.Underlying().(*types.Map); ok {
 				_, _, ln, _, _ := e.mapNames(m)
-				return Val{T: sel(e.getIn(env.cur, ln), v.T), S: "Int"}
+				return Val{T: ite("(= "+v.T+" 0)", "0", sel(e.getIn(env.cur, ln), v.T)), S: "Int"} // len(nil map) == 0
 			}
 		}
 		e.trFail("len of sort %s", v.S)
